@@ -5,6 +5,13 @@ Open Scope N_scope.
 
 Definition has (x m : N) : bool := negb (N.land x m =? 0).
 
+(* Go's unsigned fixed-width arithmetic (uint8 / uint32 wrap-around), written out *)
+Definition add8 (x y : N) : N := (x + y) mod 256.
+Definition dec8 (x : N) : N := (x + 255) mod 256.
+Definition add32 (x y : N) : N := (x + y) mod 4294967296.
+Definition sub32 (x y : N) : N := (x + 4294967296 - y mod 4294967296) mod 4294967296.
+Definition dec32 (x : N) : N := sub32 x 1.
+
 (* ---------- association maps keyed by N (first binding wins; set removes older bindings) ---------- *)
 Section AMap.
   Context {V : Type}.
